@@ -57,6 +57,25 @@ async fn verif_replay_chan_registry() {
         let n = count(&log, &format!("{kind}:a3"), "m5"); if n != 1 { bad.push(format!("REPLAY-FAIL {kind}: handler a3 received m5 {n} time(s)")); }
         a.close();
     }
+    // one channel id that registered ALL FOUR handler kinds: close (and unsub) must stop every kind
+    for how in ["close", "unsub"] {
+        let id = format!("vr_all_{how}");
+        let ch = mk(&id);
+        for kind in ["message", "start", "complete", "error"] {
+            let l = log.clone();
+            let n = format!("all:{how}:{kind}");
+            let f = move |e: &crate::Event<Message>| { l.lock().unwrap().push((n.clone(), e.id.clone())); };
+            match kind { "message" => ch.on_message(f), "start" => ch.on_start(f), "complete" => ch.on_complete(f), _ => ch.on_error(f) }
+        }
+        let emit_all = |mid: &str| { let m = msg(mid); emitter.emit_message(&m); emitter.emit_start_event(&m); emitter.emit_complete_event(&m); emitter.emit_error(&m); };
+        emit_all("x1");
+        tokio::time::sleep(std::time::Duration::from_millis(150)).await;
+        for kind in ["message", "start", "complete", "error"] { let n = count(&log, &format!("all:{how}:{kind}"), "x1"); if n != 1 { bad.push(format!("REPLAY-FAIL all kinds ({how}): the {kind} handler received x1 {n} time(s)")); } }
+        if how == "close" { ch.close(); } else { engine.executor().msg().unsub(&id).unwrap(); }
+        emit_all("x2");
+        tokio::time::sleep(std::time::Duration::from_millis(150)).await;
+        for kind in ["message", "start", "complete", "error"] { if count(&log, &format!("all:{how}:{kind}"), "x2") != 0 { bad.push(format!("REPLAY-FAIL all kinds ({how}): the {kind} handler of the channel still received x2 after {how}")); } }
+    }
     for b in bad.iter().take(12) { println!("{b}"); }
     assert!(bad.is_empty(), "{} difference(s)", bad.len());
 }
